@@ -51,6 +51,7 @@ type ledgerOp struct {
 	Meta    map[string]string
 	Unix    int64
 	Rep     int
+	Seq     int  // position in the sequence of all appends of this run
 	Acked   bool // its commit call returned success
 }
 
@@ -70,6 +71,7 @@ type repState struct {
 	// excerpt in the cache file still shows them until the bug is touched again
 	discarded map[string]bool
 	wiped     bool
+	user      entity.Id // adopted user identity (shared_user runs), "" = the replica's own first identity
 }
 
 type run struct {
@@ -78,6 +80,7 @@ type run struct {
 	w      *sim.World
 	res    *sim.RunResult
 	prop   string
+	appendSeq int
 	faults bool
 	reps   []*repState
 	bugs   []string // creation order
@@ -264,6 +267,62 @@ func (x *run) setup() error {
 		}
 		x.w.Log.EndStep("setup "+r.Name, true)
 	}
+	if p.CfgBool("shared_user") && len(x.reps) > 1 && len(x.w.Hubs) > 0 {
+		if err := x.adoptSharedUser(); err != nil {
+			return fmt.Errorf("adopt shared user: %w", err)
+		}
+	}
+	return nil
+}
+
+// adoptSharedUser publishes the identity of replica 0 and makes it the user of every replica.
+func (x *run) adoptSharedUser() error {
+	hub := x.w.Hubs[0].Name
+	r0 := x.reps[0]
+	shared := r0.own[0]
+	x.w.Act(r0.r)
+	sim.SetRandStep(910000)
+	if _, err := identity.Push(r0.r.Sim, hub); err != nil {
+		return err
+	}
+	for i, rs := range x.reps[1:] {
+		r := rs.r
+		x.w.Act(r)
+		sim.SetRandStep(uint64(910001 + i))
+		if _, err := identity.Fetch(r.Sim, hub); err != nil {
+			return err
+		}
+		if r.Cache != nil {
+			for res := range r.Cache.MergeAll(hub) {
+				if res.Err != nil {
+					return res.Err
+				}
+			}
+			ic, err := r.Cache.Identities().Resolve(shared)
+			if err != nil {
+				return err
+			}
+			if err := r.Cache.SetUserIdentity(ic); err != nil {
+				return err
+			}
+		} else {
+			for res := range identity.MergeAll(r.Sim, hub) {
+				if res.Err != nil {
+					return res.Err
+				}
+			}
+			idt, err := identity.ReadLocal(r.Sim, shared)
+			if err != nil {
+				return err
+			}
+			if err := identity.SetUserIdentity(r.Sim, idt); err != nil {
+				return err
+			}
+		}
+		rs.user = shared
+	}
+	x.probe("shared_user_adopted")
+	x.w.Log.EndStep("adopt shared user", true)
 	return nil
 }
 
@@ -353,10 +412,13 @@ func (x *run) author(rs *repState, ord int) (identity.Interface, error) {
 	if len(ids) == 0 {
 		return nil, fmt.Errorf("no identity")
 	}
-	// bias towards the replica's own first identity
+	// bias towards the replica's user: its own first identity, or the adopted one
 	var id entity.Id
 	if ord%4 != 3 || len(ids) == 1 {
 		id = ids[0]
+		if rs.user != "" {
+			id = rs.user
+		}
 	} else {
 		id = ids[(ord/4)%len(ids)]
 	}
@@ -406,7 +468,7 @@ func (x *run) execStep(s *sim.Step) {
 		hostBefore = x.hostSnapshot(rs)
 	}
 	err := x.doStep(rs, s, pre)
-	if hostBefore != nil && !rs.wiped {
+	if hostBefore != nil {
 		x.hostCompare(rs, hostBefore, x.hostSnapshot(rs), fmt.Sprintf("step %s %s", s.Op, s.K))
 		x.ntProbes["host"] = true
 	}
@@ -523,6 +585,8 @@ func (x *run) record(rs *repState, bugId string, op dag.Operation, lo ledgerOp) 
 	lo.Author = string(op.Author().Id())
 	lo.Unix = op.Time().Unix()
 	lo.Rep = rs.r.Idx
+	x.appendSeq++
+	lo.Seq = x.appendSeq
 	lo.Meta = map[string]string{}
 	for k, v := range op.AllMetadata() {
 		lo.Meta[k] = v
